@@ -87,7 +87,9 @@ class Rendered:
         self.good_inst = None     # class of the instance it creates
         self.other_full = False   # OTHER_NS must hold the prelude objects
         self.undeclared = False   # part H: the good text names a class that
-        #                           has no valid declaration (not valid MOF)
+        #                           has no valid declaration (not valid MOF);
+        #                           part I: it is a defective production
+        self.good_embedded = []   # part I: nested texts of the good text
 
 
 class Hang(BaseException):
@@ -524,6 +526,26 @@ class Renderer:
                 self.embedded.extend(embs)
                 props += ' ea = { %s };' % ", ".join(
                     '"%s"' % e.replace('"', '\\"') for e in embs)
+            elif v in ("emb_multiline", "emb_array_multiline"):
+                # nested texts of many lines: the line ends are written as
+                # \n escapes in the string literal, so the nested text has
+                # more lines than any text of the session (number and
+                # placement of the line ends: free dimension)
+                n = 1 if v == "emb_multiline" else self.rng.randint(2, 3)
+                embs = []
+                for j in range(1, n + 1):
+                    tk = toks('instance of Base { k = %d; s = "m%d"; };'
+                              % (j, j))
+                    emb = "\n" * self.rng.randint(0, 2)
+                    for t in tk:
+                        emb += t + self.rng.choice(
+                            ["\n", "\n\n", "\n\n\n", "\n  ", "\n\n\t"])
+                    embs.append(emb)
+                self.embedded.extend(embs)
+                lits = ['"%s"' % e.replace('"', '\\"').replace("\n", "\\n")
+                        .replace("\t", "\\t") for e in embs]
+                props += (' e = %s;' % lits[0]) if v == "emb_multiline" \
+                    else ' ea = { %s };' % ", ".join(lits)
             elif v == "of_prev":
                 name, keymode = self.prev or ("Types", "base")
                 cls = self.anycase(name) if self.rng.random() < 0.3 else name
@@ -865,7 +887,16 @@ class Renderer:
             out.texts.append({"fid": 0, "text": out.text})
         for emb in self.embedded:
             out.texts.append({"fid": 0, "text": emb})
-        if ses.get("good"):
+        if ses.get("good") and ses["good"][0]["d"] in (
+                "lex", "syntax", "value", "dependency"):
+            # part I: the text of the later call is one defective production
+            # (not valid MOF: no reference compile, no digest)
+            n_emb = len(self.embedded)
+            self.upper = False
+            out.good_text = self.render_file(ses["good"], 9, self.main_path)
+            out.good_embedded = self.embedded[n_emb:]
+            out.undeclared = True
+        elif ses.get("good"):
             # part F: the class the main text failed to declare is available
             # in valid form on the search path; the good text depends on it
             # part H: nothing on the search path, the later text names a
@@ -1262,7 +1293,9 @@ def run_session(ses, seed, workdir, timeout=10.0, keep=False):
             else reference_same_history(ses, r, timeout)
         glens = GOOD_LENS if r.good_text is None else \
             [{"fid": 0, "lens": [len(x) for x in gtext.split("\n")]}] + \
-            [x for x in text_lens(r) if x["fid"] >= 3]
+            [x for x in text_lens(r) if x["fid"] >= 3] + \
+            [{"fid": 0, "lens": [len(x) for x in e.split("\n")]}
+             for e in r.good_embedded]
         if r.good_text is not None:
             info["good_text"] = gtext
         good.update(call="good", texts=glens,
